@@ -49,6 +49,7 @@ def run(rep, ctx):
     rep.run_rule("C15.R1", "non-registration functions have an empty transitive write set on registry state", r1_purity, ctx)
     rep.run_rule("C15.R2", "registry-owned containers handed out by getters reach no mutation sink outside the registration methods", r2_sinks, ctx)
     rep.run_rule("C15.R3", "every registration method that writes a field a memo's fill path reads also clears that memo", r3_coherence, ctx)
+    rep.run_rule("C15.R4", "the only state a query may write is a known memo table (whose coherence R3 establishes); no unlisted cache on the database or on interned quantities", r4_no_unlisted_memo, ctx)
     rep.not_decided.append("equality of query *answers* between warm and fresh databases beyond purity and memo coherence")
 
 
@@ -155,3 +156,33 @@ def r3_coherence(rep, ctx):
     ce = m.func("Quantity.CreateEmpty")
     rd = {(r[0], r[1]) for r in eff.direct_r.get(ce.qual, ()) if is_registry_atom(r)}
     rep.check(not rd, "C15.R3", "Quantity._EMPTY_QUANTITY", "the empty-quantity memo is filled without reading registry state", "the empty-quantity memo depends on %s" % sorted(rd), fn=ce)
+
+
+KNOWN_WRITERS = {
+    # (class, field) -> functions allowed to write it outside registration, with the reason
+    ("UnitDatabase", "quantities_cache"): {"ObtainQuantity": "the intern table (coherence: R3)"},
+    ("UnitDatabase", "_category_unit_valid"): {"CheckCategoryUnit": "the verdict memo (coherence: R3)"},
+    ("UnitDatabase", "_additional_conversions"): {"RegisterAdditionalConversionType": "registration of a conversion function for a value type (import-time)"},
+    ("Quantity", "_hash"): {"__hash__": "memo of a pure function of frozen fields (C07.R1)"},
+    ("Quantity", "_composing_units_joining_exponents"): {"GetComposingUnitsJoiningExponents": "memo of a pure function of frozen fields (C07.R1)"},
+    ("Quantity", "_EMPTY_QUANTITY"): {"CreateEmpty": "class-level memo of the empty quantity (reads no registry state: R3)"},
+}
+
+
+def r4_no_unlisted_memo(rep, ctx):
+    m, eff = ctx.model, ctx.effects
+    n = 0
+    for q, ws in sorted(eff.direct_w.items()):
+        fn = m.funcs[q]
+        if _is_registration(fn) or fn.name in ("__init__", "__new__"):
+            continue
+        for w in sorted(ws):
+            if w[0] not in ("UnitDatabase", "Quantity") or is_registry_atom(w):
+                continue
+            n += 1
+            allowed = KNOWN_WRITERS.get((w[0], w[1]), {})
+            key = "%s:%s.%s" % (q.split(".", 2)[-1], w[0], w[1])
+            rep.check(fn.name in allowed, "C15.R4", key, "%s writes %s.%s: %s" % (fn.name, w[0], w[1], allowed.get(fn.name, "")),
+                      "%s writes %s.%s, a cache that is not among the known memo tables: nothing establishes that it is keyed by everything its content depends on, nor that registrations invalidate it "
+                      "(answers can depend on the order of earlier queries)" % (q.split(".", 2)[-1], w[0], w[1]), fn=fn)
+    rep.floor("C15.R4", "non-registration writes to database/quantity state", n, 4)
